@@ -54,7 +54,7 @@ def r1_port_dependence(ctx):
 
 def r2_byte_order(ctx):
     be = 0
-    for key, body in ctx.P.bodies.items():
+    for key, body in ctx.P.scan():
         for c in body.calls(True):
             last = (c.callee or "").split("::")[-1]
             if last in BE_LAST:
